@@ -455,9 +455,11 @@ impl RefModel {
                 chunks: &Option<Vec<String>>, emb: Option<String>, chunk_embs: Option<Vec<String>>) {
         let role_c = match role { 1 => 'c', 2 => 'i', _ => 'd' };
         let n_chunks = chunks.as_ref().map(|c| c.len()).unwrap_or(0);
+        // what a client expects to read back: the bytes it put (for UTF-8 text that the chunker
+        // split this is the concatenation of the chunks: normalised text, property C07)
         let content = match chunks {
-            Some(cs) => tok(cs.concat().as_bytes()),
-            None => tok(bytes),
+            Some(cs) if std::str::from_utf8(bytes).is_ok() => tok(cs.concat().as_bytes()),
+            _ => tok(bytes),
         };
         self.frames.push(RefFrame {
             id, uri: uri.clone(), status: 'a', role: role_c, supersedes, superseded_by: None, ts, kind: kind.clone(),
@@ -585,7 +587,7 @@ impl World {
             let canon_raw = match mem.frame_canonical_payload(f.id) { Ok(b) => tok(&b), Err(_) => "err".to_string() };
             let is_manifest_doc = f.role == FrameRole::Document && f.chunk_manifest.is_some();
             let content = if is_manifest_doc {
-                if f.payload_length == 0 { "E".to_string() } else { "?".to_string() }
+                "M".to_string()
             } else { canon_raw.clone() };
             let canon = if is_manifest_doc {
                 self.cats.get(&canon_raw).cloned().unwrap_or_else(|| canon_raw.clone())
@@ -616,7 +618,7 @@ impl World {
         cards.sort();
         let obs = Obs {
             frame_count: mem.frame_count() as u64, next_frame_id: mem.next_frame_id(),
-            pending_inserts: st.pending_frame_inserts, pending_records: st.wal_appends_since_checkpoint,
+            pending_inserts: st.pending_frame_inserts, pending_records: (st.wal_pending_bytes > 0) as u64,
             seq: st.wal_sequence, dirty: st.dirty, wal_size: st.hdr_wal_size, payload_end: rel(st.cached_payload_end, base),
             data_end: rel(st.data_end, base), footer: rel(st.hdr_footer_offset, base), capacity: st.capacity_limit,
             vec_enabled: st.vec_enabled, vec, time, tantivy_dirty: st.tantivy_dirty, queue: st.enrichment_queue.clone(),
@@ -642,6 +644,8 @@ impl World {
         o.auto_tag = p.auto_tag;
         o.extract_dates = p.extract_dates;
         o.extract_triplets = p.extract_triplets;
+        // full (un-budgeted) extraction: the time-budgeted skim is timing dependent
+        o.extraction_budget_ms = 0;
         o
     }
 
@@ -677,7 +681,12 @@ impl World {
                     let ef = match &e { None => "0:-".to_string(), Some(_) => self.emb_field(&e) };
                     items.push(format!("{}:{}:{}", tok(c.as_bytes()), Self::stored_len(c.as_bytes(), 3), ef));
                 }
-                format!("ct=E len=0 plen={} chunks={}", plen, items.join(";"))
+                if std::str::from_utf8(bytes).is_ok() {
+                    format!("ct=E len=0 plen={} chunks={}", plen, items.join(";"))
+                } else {
+                    // plan over extracted text: the parent keeps the original payload
+                    format!("ct={} len={} plen={} chunks={}", tok(bytes), plen, plen, items.join(";"))
+                }
             }
         }
     }
@@ -697,7 +706,7 @@ impl World {
         let (ack, request): (Ack, String) = match op {
             Op::Put(p) => {
                 let bytes = p.payload.bytes();
-                let chunks = self.mem().preview_chunks(&bytes);
+                let chunks = verif_hooks::put_chunk_plan(&bytes, p.uri.as_deref()).unwrap_or(None);
                 let fields = self.payload_fields(&bytes, &chunks, &p.chunk_embs);
                 let embf = self.emb_field(&p.emb);
                 let opts = Self::put_options(p);
@@ -714,9 +723,10 @@ impl World {
                 let ack = match &r { Ok(s) => Ack::Seq(*s), Err(e) => { let (k, d) = map_err(e); Ack::Err(k, d) } };
                 if ack.is_ok() { self.reference.put(step_no, p, &bytes, &chunks); }
                 let tr = Self::trace_fields(&before, &after, ack.is_ok(), true);
-                (ack, format!("put {} {} emb={} ii={} st=1 {}",
+                let st = !(p.instant_index && ack.is_ok() && !before.tantivy_dirty && !after.tantivy_dirty && after.dirty);
+                (ack, format!("put {} {} emb={} ii={} st={} {}",
                     Self::common_fields(Some(p.ts), &p.uri, &p.kind, &p.track, &p.tags, &p.labels, p.role), fields, embf,
-                    p.instant_index as u8, tr))
+                    p.instant_index as u8, st as u8, tr))
             }
             Op::Update(u) => {
                 let bytes = u.payload.as_ref().map(|p| p.bytes());
@@ -728,15 +738,16 @@ impl World {
                 o.tags = u.tags.clone(); o.labels = u.labels.clone();
                 o.role = match u.role { 1 => FrameRole::DocumentChunk, 2 => FrameRole::ExtractedImage, _ => FrameRole::Document };
                 o.instant_index = u.instant_index; o.enable_embedding = false; o.auto_tag = false; o.extract_dates = false;
-                o.extract_triplets = u.extract_triplets;
+                o.extract_triplets = u.extract_triplets; o.extraction_budget_ms = 0;
                 let r = self.mem().update_frame(u.id, bytes.clone(), o, u.emb.as_ref().map(|e| e.vector()));
                 let after = verif_hooks::verif_state(self.mem());
                 let ack = match &r { Ok(s) => Ack::Seq(*s), Err(e) => { let (k, d) = map_err(e); Ack::Err(k, d) } };
                 if ack.is_ok() { self.reference.update(step_no, u, bytes.as_deref(), &chunks); }
                 let tr = Self::trace_fields(&before, &after, ack.is_ok(), true);
-                (ack, format!("update id={} {} {} emb={} ii={} st=1 {}", u.id,
+                let st = !(u.instant_index && ack.is_ok() && !before.tantivy_dirty && !after.tantivy_dirty && after.dirty);
+                (ack, format!("update id={} {} {} emb={} ii={} st={} {}", u.id,
                     Self::common_fields(u.ts, &u.uri, &u.kind, &u.track, &u.tags, &u.labels, u.role), fields, embf,
-                    u.instant_index as u8, tr))
+                    u.instant_index as u8, st as u8, tr))
             }
             Op::Delete { id } => {
                 let r = self.mem().delete_frame(*id);
